@@ -2,8 +2,8 @@
    breezy/shelf.py : ShelfManager.get_shelf_filename, get_shelf_ids, active_shelves, last_shelf,
                      new_shelf, delete_shelf (and read_shelf's NoSuchShelfId).
    The shelf directory is modelled by its listing (a list of file names, bytes = utf-8 of the
-   str names).  Environment: Python re (the pattern  shelf-([1-9][0-9]* )  used with .match, i.e.
-   anchored at the START only), int, sorted, percent-d formatting -- modelled by [match_shelf],
+   str names).  Environment: Python re (the pattern  shelf-([1-9][0-9]* )  used with .fullmatch
+   since 56cc459, i.e. the WHOLE name must match), int, sorted, percent-d formatting -- modelled by [match_shelf],
    [parse_dec], [list_max]/[N.max] and [print_dec]; validated by the correspondence run.
    No proofs here. *)
 From Coq Require Import NArith List Bool ZArith String.
@@ -31,9 +31,17 @@ Fixpoint take_digits (s : bytes) : bytes :=
   | [] => []
   end.
 
-(* matcher.match(filename); int(match.group(1)).  re.match anchors at the start only: anything may
-   follow the digits (shelf-12.bak gives 12). *)
+(* matcher.fullmatch(filename); int(match.group(1)): the whole name is "shelf-", a digit 1-9 and
+   then digits only (shelf-12.bak, shelf-1x, shelf-01 are not shelves). *)
 Definition match_shelf (fn : bytes) : option N :=
+  match strip_prefix PREFIX fn with
+  | Some (c :: r) =>
+      if (49 <=? c) && (c <=? 57) && forallb is_dec_char r then parse_dec (c :: r) else None
+  | _ => None
+  end.
+
+(* the same with re.match (anchored at the start only), the behaviour before 56cc459 *)
+Definition match_shelf_old (fn : bytes) : option N :=
   match strip_prefix PREFIX fn with
   | Some (c :: r) => if (49 <=? c) && (c <=? 57) then parse_dec (c :: take_digits r) else None
   | _ => None
